@@ -595,7 +595,11 @@ def gen_class(ctx, tg, parent_list, outer_access, depth=0, anon_ok=True):
                 params, vararg = gen_params(ctx, tg)
                 explicit = r.random() < 0.3
                 tail, kw = r.choice([(";", {}), (" = default;", {"default": True}), (" = delete;", {"deleted": True}),
-                                     (" : a(1), b{2} {}", {"has_body": True}), (" {}", {"has_body": True})])
+                                     (" : a(1), b{2} {}", {"has_body": True}), (" {}", {"has_body": True}),
+                                     (" : Bs(v)... {}", {"has_body": True}), (" : x(1), Bs{v}... { y; }", {"has_body": True}),
+                                     (" : ::ns::Base(1), Tmpl<int, 3>(2), c{3} { x; }", {"has_body": True}),
+                                     (" : decltype(m_){x}, d(f(1, 2)) {}", {"has_body": True}), (" : a([]{ return 1; }()) { }", {"has_body": True}),
+                                     (" noexcept : a(1) {}", {"has_body": True, "noexcept": T.Value([])})])
                 lines.append("  %s%s(%s)%s" % ("explicit " if explicit else "", name, print_params(params, vararg), tail))
                 scope.methods.append(T.Method(None, pq_name(name), params, vararg, access=access, constructor=True, explicit=explicit, **kw))
             elif kk < 0.6:
